@@ -99,8 +99,9 @@ class M13(Machine):
                 # somebody else teaches *their* encoder a quantity class
                 try:
                     other = make_encoder(between[1], {})
-                    other.add_quantity_cls(UserQty, "value", "units")
-                    other.encode(PVLModule([("n", UserQty(3, "PIXEL"))]))
+                    other.add_quantity_cls(self.uq_class(), "value", "units")
+                    other.encode(PVLModule([("n", self.uq_class()(
+                        3, "PIXEL"))]))
                 except Exception:   # noqa: BLE001
                     pass
             elif between and i:
